@@ -69,6 +69,42 @@ fn static_orders(tc: &mut Tc<'_>) -> Vec<Vec<(String, Vec<LockId>)>> {
 			}
 		}};
 	}
+	// sub-word neighbours: 3-byte mutexes packed into one 8-byte word (like parking_lot's
+	// Mutex<u8>), listed with and against their address order
+	{
+		type SM = happylock::mutex::Mutex<u8, crate::audit::SmallAuditMutex>;
+		let small: [SM; 4] = [SM::new(0), SM::new(1), SM::new(2), SM::new(3)];
+		for m in small.iter() {
+			let id = w.add_lock(false);
+			w.begin_setup();
+			set_reg_tag(Some(id));
+			let mut k = tc.key.take().or_else(ThreadKey::get).expect("key");
+			let _ = m.scoped_try_lock(&mut k, |_| ());
+			tc.key = Some(k);
+			set_reg_tag(None);
+			w.end_setup();
+		}
+		macro_rules! locked_order_w {
+			($label:expr, $c:expr) => {{
+				let c = $c;
+				let key = tc.key.take().or_else(ThreadKey::get).expect("key");
+				w.begin_call(0, Class::Acquire, "order.lock", false);
+				let g = c.lock(key);
+				let ops = w.end_call(0);
+				out.push(($label.to_string(), acquisition_order(&ops)));
+				drop(g);
+			}};
+		}
+		locked_order_w!("Boxed::try_new([&s0, &s1, &s2, &s3]) (3-byte locks)", BoxedLockCollection::try_new([&small[0], &small[1], &small[2], &small[3]]).unwrap());
+		locked_order_w!("Boxed::try_new([&s3, &s2, &s1, &s0]) (3-byte locks)", BoxedLockCollection::try_new([&small[3], &small[2], &small[1], &small[0]]).unwrap());
+		locked_order_w!("Boxed::try_new((&s1, &s0)) (3-byte locks)", BoxedLockCollection::try_new((&small[1], &small[0])).unwrap());
+		locked_order_w!("Boxed::new_ref(&[s0..s3]) (3-byte locks)", BoxedLockCollection::new_ref(&small));
+		{
+			let data = [&small[2], &small[0], &small[3], &small[1]];
+			locked_order_w!("Ref::try_new(&[&s2, &s0, &s3, &s1]) (3-byte locks)", RefLockCollection::try_new(&data).unwrap());
+		}
+		locked_order_w!("Boxed::try_new(vec![&s2, &s1]) (3-byte locks)", BoxedLockCollection::try_new(vec![&small[2], &small[1]]).unwrap());
+	}
 	for read in [false, true] {
 		{
 			let [a, b, c] = &mut arr;
